@@ -58,7 +58,7 @@ def parser(literal_string, simple_ident, all_columns=None, sqlserver=False):
 
         with whitespaces.NO_WHITESPACE:
             identifier = ~RESERVED + ident
-        function_name = ~(UNION | FROM | WHERE | SELECT) + ident
+        function_name = ~(UNION | FROM | WHERE | SELECT | WHEN | THEN | ELSE | END) + ident
         # A BARE WORD USED AS A VALUE IS NOT A RESERVED WORD (PIVOT AND UNPIVOT ARE ALSO COLUMN NAMES)
         column_name = ~MatchFirst([k for k in RESERVED.exprs if k is not PIVOT and k is not UNPIVOT]) + ident
 
